@@ -414,6 +414,19 @@ func c11ConcurrentPrivate(c *core.Ctx, k *core.Case) {
 	g, steps := int(k.I[1]), raceScale(int(k.I[2]))
 	cnt := make([]security.Count, g)
 	model := make([]uint32, g)
+	if k.I[0]&1 == 1 {
+		// the private counters are value copies of one counter that was already used (set,
+		// incremented, read): copies of a Count are independent values
+		var origin security.Count
+		origin.Set(uint16(k.I[0]>>8), uint8(k.I[0]>>3))
+		origin.SetSQN(uint8(k.I[0] >> 5))
+		origin.AddOne()
+		v := origin.Get()
+		for w := range cnt {
+			cnt[w] = origin
+			model[w] = v
+		}
+	}
 	rs := make([]*prng.Rand, g)
 	for w := range rs {
 		rs[w] = prng.New(uint64(k.I[0]) + uint64(w)*0x9e3779b97f4a7c15)
